@@ -5,7 +5,7 @@ from hvsim.model import Layer
 
 
 def gen_layer_ops(rng, nsectors: int, unit: int, caps: dict, nops: int, wid0: int, has_parent: bool,
-                  hot_units: list[int] | None = None) -> list:
+                  hot_units: list[int] | None = None, gran: int = 1) -> list:
     """A writer history for one layer: list of ops over sectors/units."""
     nunits = (nsectors + unit - 1) // unit
     ops = []
@@ -34,6 +34,9 @@ def gen_layer_ops(rng, nsectors: int, unit: int, caps: dict, nops: int, wid0: in
                 ln = min(ln, rng.choice([1, 8, 64, 2048]))
             start = min(start, nsectors - 1)
             ln = max(1, min(ln, nsectors - start))
+            if gran > 1:
+                start -= start % gran
+                ln = max(gran, min((ln + gran - 1) // gran * gran, nsectors - start))
             ops.append(["w", start, ln, wid])
             wid += 1
         elif r < 0.75:
@@ -45,6 +48,11 @@ def gen_layer_ops(rng, nsectors: int, unit: int, caps: dict, nops: int, wid0: in
             else:
                 start = min(u * unit + rng.randrange(unit), nsectors - 1)
                 ln = max(1, min(rng.randint(1, unit + 1), nsectors - start))
+                if unit > 4096:
+                    ln = min(ln, rng.choice([1, 8, 64, 2048]))
+                if gran > 1:
+                    start -= start % gran
+                    ln = max(gran, min((ln + gran - 1) // gran * gran, nsectors - start))
             modes = ["data"]
             if caps.get("zero_units"):
                 modes += ["flag", "flag"]
